@@ -116,6 +116,8 @@ def run(rep, idx, tier):
     rep.require("C04.7", 3)
     rep.require("C04.8", 3)
     rep.require("C04.9", 2)
+    from .c19 import identity_comparisons
+    identity_comparisons(rep, idx, rule="C04.9", classes=["Multiplexer"])
     glue.reset_discipline(rep, "C04.9", idx, ["csr/bus:Multiplexer", "csr/bus:Multiplexer._Shadow.Chunk"])
     c = get_ctx(idx, "csr:Multiplexer.elaborate")
     rep.analysed(c.fi.site)
